@@ -11,4 +11,9 @@ def collect(h):
     items.append(("blob_bucket_endian", "endian", h.endianness(h.func_body(rel, r"^func mutateBucketNumber\(", "mutateBucketNumber"), "mutateBucketNumber", rel), rel))
     # bucket switch rule: `bytesRead > chunkSize*bucketSize*bucketNumber`
     h.find(rel, r"if\s+bytesRead\s*>\s*chunkSize\s*\*\s*bucketSize\s*\*\s*bucketNumber\s*\{", "bucket switch rule")
+    # ReadBLOB refuses a BLOB whose state is not Completed (a write still going on or one that died)
+    body = h.func_body(rel, r"^func \(b \*bStorageType\) ReadBLOB\(", "ReadBLOB")
+    import re as _re
+    req = bool(_re.search(r"state\.Status\s*!=\s*iblobstorage\.BLOBStatus_Completed", body))
+    items.append(("blob_read_requires_completed", "bool", "true" if req else "false", rel + " ReadBLOB"))
     return items
